@@ -400,6 +400,7 @@ func run(r *vk.Run) {
 	exhaustiveSingle(r)
 	shortSequences(r)
 	randomSequences(r)
+	optionSlices(r)
 	r.Require("calls", 1000)
 }
 
@@ -803,4 +804,105 @@ func noOverlap(paths []string) []string {
 		}
 	}
 	return out
+}
+
+// optionSlices: a caller may build its option lists by appending to a shared prefix that has spare capacity; what a
+// call does with the variadic slice it is handed must not show in a sibling slice that shares the backing array.
+// For every write entry point: call it with the prefix, then use the sibling (prefix + an expected check) in an Update
+// of an existing item: the check runs exactly once and the update succeeds. The same for read options.
+func optionSlices(r *vk.Run) {
+	type entry struct {
+		name string
+		call func(col *resource.Collection, val *resource.Value, opts []resource.WriteOption)
+	}
+	entries := []entry{
+		{"Collection.Add", func(col *resource.Collection, _ *resource.Value, o []resource.WriteOption) {
+			col.Add("n", &traits.OnOff{State: traits.OnOff_ON}, o...)
+		}},
+		{"Collection.Update", func(col *resource.Collection, _ *resource.Value, o []resource.WriteOption) {
+			col.Update("x", &traits.OnOff{State: traits.OnOff_ON}, o...)
+		}},
+		{"Collection.Update+create", func(col *resource.Collection, _ *resource.Value, o []resource.WriteOption) {
+			// (the harness must not write into the shared array either: the create option goes first, in a slice of its own)
+			own := append(make([]resource.WriteOption, 0, len(o)+4), resource.WithCreateIfAbsent())
+			col.Update("m", &traits.OnOff{State: traits.OnOff_ON}, append(own, o...)...)
+		}},
+		{"Collection.Delete", func(col *resource.Collection, _ *resource.Value, o []resource.WriteOption) { col.Delete("y", o...) }},
+		{"Value.Set", func(_ *resource.Collection, val *resource.Value, o []resource.WriteOption) {
+			val.Set(&traits.OnOff{State: traits.OnOff_ON}, o...)
+		}},
+	}
+	for i, e := range entries {
+		if !r.Mine(i) {
+			continue
+		}
+		for _, prefixLen := range []int{0, 1, 2} {
+			col := resource.NewCollection(resource.WithInitialRecord("x", &traits.OnOff{}), resource.WithInitialRecord("y", &traits.OnOff{}), resource.WithInitialRecord("z", &traits.OnOff{}))
+			val := resource.NewValue(resource.WithInitialValue(&traits.OnOff{}))
+			prefix := make([]resource.WriteOption, 0, 8)
+			after := 0
+			for k := 0; k < prefixLen; k++ {
+				prefix = append(prefix, resource.InterceptAfter(func(_, _ proto.Message) { after++ }))
+			}
+			checks := 0
+			sibling := append(prefix, resource.WithExpectedCheck(func(proto.Message) error { checks++; return nil }), resource.WithWriteTime(time.Unix(77, 0)))
+			e.call(col, val, prefix)
+			_, err := col.Update("z", &traits.OnOff{State: traits.OnOff_OFF}, sibling...)
+			r.Eval(1)
+			r.Count("option-slice-cases", 1)
+			r.Distinct(fmt.Sprintf("optslice|%s|%d", e.name, prefixLen))
+			if err != nil || checks != 1 {
+				r.Violation("C01/caller-option-slice/"+e.name, fmt.Sprintf("%s was called with a %d-option slice that has spare capacity; afterwards an Update of an existing item with a sibling slice (the same prefix + WithExpectedCheck + WithWriteTime) returned %v and ran the check %d times (want nil, once): the call wrote into the caller's slice", e.name, prefixLen, err, checks), map[string]any{"entry": e.name, "prefix": prefixLen})
+			}
+		}
+	}
+	// read options
+	readers := []struct {
+		name string
+		call func(col *resource.Collection, val *resource.Value, o []resource.ReadOption)
+	}{
+		{"Collection.Get", func(col *resource.Collection, _ *resource.Value, o []resource.ReadOption) { col.Get("x", o...) }},
+		{"Collection.List", func(col *resource.Collection, _ *resource.Value, o []resource.ReadOption) { col.List(o...) }},
+		{"Value.Get", func(_ *resource.Collection, val *resource.Value, o []resource.ReadOption) { val.Get(o...) }},
+		{"Collection.Pull", func(col *resource.Collection, _ *resource.Value, o []resource.ReadOption) {
+			ctx, cancel := context.WithCancel(context.Background())
+			ch := col.Pull(ctx, o...)
+			cancel()
+			for range ch {
+			}
+		}},
+		{"Collection.PullID", func(col *resource.Collection, _ *resource.Value, o []resource.ReadOption) {
+			ctx, cancel := context.WithCancel(context.Background())
+			ch := col.PullID(ctx, "x", o...)
+			cancel()
+			for range ch {
+			}
+		}},
+		{"Value.Pull", func(_ *resource.Collection, val *resource.Value, o []resource.ReadOption) {
+			ctx, cancel := context.WithCancel(context.Background())
+			ch := val.Pull(ctx, o...)
+			cancel()
+			for range ch {
+			}
+		}},
+	}
+	for i, e := range readers {
+		if !r.Mine(100 + i) {
+			continue
+		}
+		col := resource.NewCollection(resource.WithInitialRecord("x", &traits.Brightness{LevelPercent: 40, TargetLevelPercent: 60}))
+		val := resource.NewValue(resource.WithInitialValue(&traits.Brightness{LevelPercent: 40, TargetLevelPercent: 60}))
+		prefix := make([]resource.ReadOption, 0, 8)
+		prefix = append(prefix, resource.WithUpdatesOnly(false))
+		sibling := append(prefix, resource.WithReadPaths(&traits.Brightness{}, "level_percent"))
+		e.call(col, val, prefix)
+		got, _ := col.Get("x", sibling...)
+		r.Eval(1)
+		r.Count("option-slice-cases", 1)
+		r.Distinct("optslice|" + e.name)
+		if want := (&traits.Brightness{LevelPercent: 40}); !proto.Equal(got, want) {
+			r.Violation("C01/caller-option-slice/"+e.name, fmt.Sprintf("%s was called with a read-option slice that has spare capacity; afterwards Get with a sibling slice (the same prefix + a read mask) returned %s, want %s", e.name, vk.JSON(got), vk.JSON(want)), map[string]any{"entry": e.name})
+		}
+	}
+	vk.Quiesce()
 }
